@@ -13,6 +13,9 @@ pub struct TokenBasedLuaGenerator<'a> {
     output: String,
     currently_commenting: bool,
     current_line: usize,
+    /// where the last written token ended in the original code, with the length of the
+    /// output right after it was written
+    last_source_end: Option<(usize, usize)>,
 }
 
 impl<'a> TokenBasedLuaGenerator<'a> {
@@ -21,6 +24,7 @@ impl<'a> TokenBasedLuaGenerator<'a> {
             original_code,
             output: String::new(),
             currently_commenting: false,
+            last_source_end: None,
             current_line: 1,
         }
     }
@@ -86,7 +90,9 @@ impl<'a> TokenBasedLuaGenerator<'a> {
                 }
             }
 
-            if space_check {
+            // two tokens that touch each other in the original code can be written next
+            // to each other again
+            if space_check && !self.follows_in_source(token.get_source_range()) {
                 if let Some(next_character) = content.chars().next() {
                     if self.needs_space(next_character) {
                         self.output.push(' ');
@@ -95,6 +101,7 @@ impl<'a> TokenBasedLuaGenerator<'a> {
             }
 
             self.push_str(content);
+            self.set_last_source_end(token.get_source_range());
         }
 
         for trivia in token.iter_trailing_trivia() {
@@ -1985,6 +1992,23 @@ impl<'a> TokenBasedLuaGenerator<'a> {
                 self.write_symbol(":");
             }
             self.write_type(r#type);
+        }
+    }
+
+    #[inline]
+    fn set_last_source_end(&mut self, source_range: Option<(usize, usize)>) {
+        self.last_source_end = source_range.map(|(_, end)| (end, self.output.len()));
+    }
+
+    /// Returns true when the given range of the original code starts exactly where the
+    /// last written token ended, and nothing else has been written since.
+    #[inline]
+    fn follows_in_source(&self, source_range: Option<(usize, usize)>) -> bool {
+        match (self.last_source_end, source_range) {
+            (Some((last_end, output_length)), Some((start, _))) => {
+                last_end == start && output_length == self.output.len()
+            }
+            _ => false,
         }
     }
 
